@@ -34,6 +34,18 @@ pub struct NetWorld {
     pub net: SimNet,
     pub devices: Vec<NetDevice>,
     pub base: no::LogSet,
+    /// devices of other accounts on the same server (C11)
+    pub extra: Vec<NetDevice>,
+    /// another account that exists on the server
+    pub other_account: Option<sos_core::AccountId>,
+    /// index into `extra` of an account the access configuration excludes
+    pub excluded_device: Option<usize>,
+    pub access_mode: String,
+    /// a device key that was trusted and then revoked
+    pub revoked_key: Option<sos_signer::ed25519::BoxedEd25519Signer>,
+    /// plaintext scanner (C03)
+    pub scanner: Option<crate::plainscan::Scanner>,
+    pub root: std::path::PathBuf,
 }
 
 pub fn generate(property: &str, seed: u64, tier: Tier) -> Plan {
@@ -69,6 +81,10 @@ pub fn generate(property: &str, seed: u64, tier: Tier) -> Plan {
         ("chpw_folder", if rewrite { 1 } else { 0 }),
         ("trust", 1),
         ("stale_patch", if property == "C07" { 8 } else { 0 }),
+        ("forge", if property == "C11" { 5 } else { 0 }),
+        ("export", if property == "C03" { 2 } else { 0 }),
+        ("fdesc", if property == "C03" { 4 } else { 0 }),
+        ("revoke_flow", if property == "C11" { 2 } else { 0 }),
     ];
     for (name, x) in w.iter_mut() {
         if matches!(*name, "create" | "sync") {
@@ -120,6 +136,9 @@ pub fn generate(property: &str, seed: u64, tier: Tier) -> Plan {
             "compact" => json!({"op":"compact","dev":dev,"fslot":any_folder(&mut r)}),
             "chpw_folder" => json!({"op":"chpw_folder","dev":dev,"fslot":any_folder(&mut r),"val":val}),
             "trust" => json!({"op":"trust","dev":dev,"key":r.below(2),"revoke":r.chance(1,3)}),
+            "forge" => json!({"op":"forge","dev":dev}),
+            "export" => json!({"op":"export","dev":dev}),
+            "revoke_flow" => json!({"op":"revoke_flow","dev":dev}),
             "stale_patch" => json!({"op":"stale_patch","dev":dev,"log":r.below(8),"depth":r.below(4),"proof": if r.chance(1,2) {"forged"} else {"stale"}}),
             other => json!({"op":other,"dev":dev}),
         };
@@ -141,6 +160,7 @@ pub fn generate(property: &str, seed: u64, tier: Tier) -> Plan {
             "clock_tie": r.chance(1,5),
             "system_folders": r.chance(1,2),
             "rewrite": rewrite,
+            "access": if property == "C11" { r.below(4) } else { 0 },
         }),
         steps,
     }
@@ -241,17 +261,49 @@ pub async fn execute(plan: Plan, dir: &Path) -> RunOutcome {
             return o;
         }};
     }
-    let server = match SimServer::start(&dir.join("server"), jbool(&cfg, "server_db"), None).await {
-        Ok(s) => s,
-        Err(e) => harness_err!(rec, plan, format!("server: {e}")),
-    };
-    let net = SimNet::new(server.router.clone());
     // device 0 creates the account
     let kind0 = if dev_db.first().copied().unwrap_or(false) { BackendKind::Db } else { BackendKind::Fs };
     let d0 = match Device::create("d0", &dir.join("d0"), kind0, "net world password 1", jbool(&cfg, "system_folders")).await {
         Ok(d) => d,
         Err(e) => harness_err!(rec, plan, format!("create account: {e}")),
     };
+    // C11: a second account, possibly excluded by the server's access lists
+    let access = ju64(&cfg, "access");
+    let mut extra: Vec<NetDevice> = vec![];
+    let mut server_cfg = None;
+    let access_mode = ["none", "allow_list_without_b", "deny_list_with_b", "b_on_allow_and_deny_list"][(access % 4) as usize].to_string();
+    if prop == "C11" {
+        match Device::create("e0", &dir.join("e0"), BackendKind::Fs, "other account password 2", false).await {
+            Ok(e0) => {
+                let a_id = d0.account_id;
+                let b_id = e0.account_id;
+                let mut c = sos_server::ServerConfig::default();
+                let set = |v: Vec<sos_core::AccountId>| Some(v.into_iter().collect::<std::collections::HashSet<_>>());
+                c.access = match access % 4 {
+                    1 => Some(sos_server::AccessControlConfig { allow: set(vec![a_id]), deny: None }),
+                    2 => Some(sos_server::AccessControlConfig { allow: None, deny: set(vec![b_id]) }),
+                    3 => Some(sos_server::AccessControlConfig { allow: set(vec![a_id, b_id]), deny: set(vec![b_id]) }),
+                    _ => None,
+                };
+                server_cfg = Some(c);
+                extra.push(NetDevice {
+                    dev: e0,
+                    online: Arc::new(AtomicBool::new(true)),
+                    bridge: None,
+                    skew_ns: 0,
+                    own: Default::default(),
+                    last_sync_ok: false,
+                    last_err: String::new(),
+                });
+            }
+            Err(e) => harness_err!(rec, plan, format!("create second account: {e}")),
+        }
+    }
+    let server = match SimServer::start(&dir.join("server"), jbool(&cfg, "server_db"), server_cfg).await {
+        Ok(s) => s,
+        Err(e) => harness_err!(rec, plan, format!("server: {e}")),
+    };
+    let net = SimNet::new(server.router.clone());
     let mut world = NetWorld {
         server,
         net,
@@ -265,7 +317,21 @@ pub async fn execute(plan: Plan, dir: &Path) -> RunOutcome {
             last_err: String::new(),
         }],
         base: Default::default(),
+        extra,
+        other_account: None,
+        excluded_device: None,
+        access_mode,
+        revoked_key: None,
+        scanner: if prop == "C03" { Some(crate::plainscan::Scanner::new()) } else { None },
+        root: dir.to_path_buf(),
     };
+    if prop == "C03" {
+        world.devices[0].dev.marker_labels = true;
+        world.net.0.tap_on.store(true, SeqCst);
+        crate::interpose::disk_watch(&[dir], false, true);
+        // the account password is secret material too
+        crate::device::marker_custom("net world password 1", "account.password");
+    }
     if std::env::var("SOSSIM_TRACE").is_ok() { eprintln!("setup: initial sync"); }
     // first sync creates the account on the server
     let c = world.sync(0, &mut rec).await;
@@ -273,6 +339,33 @@ pub async fn execute(plan: Plan, dir: &Path) -> RunOutcome {
         harness_err!(rec, plan, format!("initial sync: {c}"));
     }
     if std::env::var("SOSSIM_TRACE").is_ok() { eprintln!("setup: copy devices"); }
+    if prop == "C11" && !world.extra.is_empty() {
+        // the second account tries to create itself on the server
+        let shared = world.extra[0].dev.shared();
+        match SimBridge::new(&world.net, 50, shared, world.extra[0].online.clone()).await {
+            Ok(b) => {
+                let r = b.execute_sync(&SyncOptions::default()).await;
+                let excluded = world.access_mode != "none";
+                match (&r, excluded) {
+                    (Ok(_), false) => world.other_account = Some(world.extra[0].dev.account_id),
+                    (Ok(_), true) => {
+                        rec.violate(
+                            "C11",
+                            &format!("C11/excluded_account_served/{}/create_by_sync", world.access_mode),
+                            format!("access config '{}': the excluded account created itself on the server", world.access_mode),
+                        );
+                        world.excluded_device = Some(0);
+                    }
+                    (Err(_), true) => world.excluded_device = Some(0),
+                    (Err(e), false) => harness_err!(rec, plan, format!("second account sync: {e}")),
+                }
+                world.extra[0].bridge = Some(b);
+            }
+            Err(e) => harness_err!(rec, plan, format!("bridge e0: {e}")),
+        }
+        let c = crate::authw::excluded_account_sweep(&mut world, &mut rec).await;
+        rec.observe(&c);
+    }
     // other devices start as copies of device 0 (same device key), as the
     // repository's own multi-device tests do
     {
@@ -291,6 +384,7 @@ pub async fn execute(plan: Plan, dir: &Path) -> RunOutcome {
             match Device::open_existing(&format!("d{i}"), &dst, kind, account_id, password.clone()).await {
                 Ok(mut d) => {
                     d.model.fslots = world.devices[0].dev.model.fslots.clone();
+                    d.marker_labels = world.devices[0].dev.marker_labels;
                     world.devices.push(NetDevice {
                         dev: d,
                         online: Arc::new(AtomicBool::new(true)),
@@ -381,6 +475,9 @@ pub async fn execute(plan: Plan, dir: &Path) -> RunOutcome {
             }
             "trust" => no::trust_op(&mut world, di, s, &mut rec).await,
             "stale_patch" => no::stale_patch_op(&mut world, di, s, &mut rec).await,
+            "forge" => crate::authw::forge_sweep(&mut world, s, &mut rec).await,
+            "export" => no::export_op(&mut world, di, idx).await,
+            "revoke_flow" => no::revoke_flow(&mut world, di, &mut rec).await,
             _ => {
                 // a local edit on device di
                 let before = no::device_log_lens(&world.devices[di].dev).await;
@@ -396,6 +493,9 @@ pub async fn execute(plan: Plan, dir: &Path) -> RunOutcome {
             }
         };
         let class_short = class.split(':').next().unwrap_or("").to_string();
+        if world.scanner.is_some() {
+            no::plaintext_scan(&mut world, &mut rec).await;
+        }
         // per-step oracles on every device
         if opn != "fault" && opn != "offline" && opn != "online" {
             no::per_step_checks(&mut world, &mut rec, &prop, &opn).await;
